@@ -32,7 +32,7 @@ var (
 // batteryViews: from every probe key a forward and a reverse seek with a full walk;
 // and every (seek, seek) pair whose second target is beyond either end (a cursor that
 // was positioned and then finds nothing).
-func batteryViews() [][]ItOp {
+func batteryViews(pairFirst []B) [][]ItOp {
 	var out [][]ItOp
 	walk := []ItOp{{Op: "key"}, {Op: "value"}, {Op: "next"}, {Op: "key"}, {Op: "value"}, {Op: "next"}, {Op: "key"}, {Op: "value"}, {Op: "next"}, {Op: "valid"}}
 	for _, p := range enumProbes {
@@ -40,7 +40,7 @@ func batteryViews() [][]ItOp {
 			out = append(out, append([]ItOp{{Op: dir, K: p}}, walk...))
 		}
 	}
-	for _, p1 := range enumProbes {
+	for _, p1 := range pairFirst {
 		for _, p2 := range enumEnds {
 			for _, d1 := range []string{"seek", "seekrev"} {
 				for _, d2 := range []string{"seek", "seekrev"} {
@@ -57,7 +57,7 @@ func batteryTop() []Op {
 	for _, k := range enumPointKeys {
 		ops = append(ops, Op{Op: "get", K: k}, Op{Op: "has", K: k})
 	}
-	for _, v := range batteryViews() {
+	for _, v := range batteryViews(enumProbes) {
 		ops = append(ops, Op{Op: "view", It: v})
 	}
 	return ops
@@ -68,7 +68,13 @@ func batteryTx() []TxOp {
 	for _, k := range enumPointKeys {
 		ops = append(ops, TxOp{Op: "get", K: k}, TxOp{Op: "has", K: k})
 	}
-	for _, v := range batteryViews() {
+	// (the iterators are the same code inside and outside a transaction: the quick tier
+	// repeats only a few of the seek pairs inside the transaction)
+	first := enumProbes
+	if !pbt.Thorough() {
+		first = []B{B("a")}
+	}
+	for _, v := range batteryViews(first) {
 		ops = append(ops, TxOp{Op: "view", It: v})
 	}
 	return ops
